@@ -16,7 +16,9 @@ VERIF = os.path.dirname(os.path.dirname(os.path.abspath(__file__)))
 REPO = os.environ.get('VERIF_REPO', '/repo')
 LEAN = os.path.join(VERIF, 'lean')
 DRIVER_BIN = os.path.join(LEAN, '.lake', 'build', 'bin', 'addriver')
-EVID = os.path.join(VERIF, 'evidence')
+# evidence describes /repo; a run pointed at another tree (a seeded change in a scratch worktree, VERIF_REPO) writes its
+# evidence into the scratch area instead, so that evidence/ never holds the record of a run against modified code
+EVID = os.path.join(VERIF, 'evidence') if os.path.realpath(REPO) == os.path.realpath('/repo') else os.path.join(VERIF, '.work', 'evidence-other-tree')
 REPLAYS = os.path.join(VERIF, 'replays')
 # scratch directory of THIS check process (workers are forked and inherit it); concurrent checks never share one
 WORK = os.environ.get('VERIF_WORK') or os.path.join(VERIF, '.work', 'p%d' % os.getpid())
